@@ -4,6 +4,7 @@ import CandidModel.Driver.Subtype
 import CandidModel.Driver.Wire
 import CandidModel.Driver.Labels
 import CandidModel.Driver.De
+import CandidModel.Driver.Text
 /-
   Line-protocol driver.  One request per line: `<op>\t<arg>\t<arg>…`; one answer per line:
   `<model answer>\t<spec answer>` (or `bad-op` for what no handler accepts — never a default).
@@ -11,7 +12,7 @@ import CandidModel.Driver.De
 open Candid Candid.Driver
 
 def handlers : List (String → List String → Option String) :=
-  [handleLeb, handlePrincipal, handleSubtype, handleWire, handleLabels, handleDe]
+  [handleLeb, handlePrincipal, handleSubtype, handleWire, handleLabels, handleDe, handleText]
 
 def answer (line : String) : String :=
   match line.splitOn "\t" with
